@@ -554,6 +554,195 @@ run_direct(long item, void *arg)
         n_scans = n_calls = n_hits = 0;
         free_mb_mgr(m);
 }
+/* ---------------- derived key material: three-run differential (key A / key B / key A with other messages) ----------------
+ * Keys, sub-keys and schedules are caught by the pattern scan above; state DERIVED from them (stream-cipher LFSR/FSM
+ * rows, keystream words, E_K(counter), hash key powers ...) has no recognisable pattern. It is found differentially:
+ * the same schedule runs three times from the same pristine manager image with the key objects, IVs, AAD and every
+ * buffer at the same addresses - R0 = (keys A, messages 0), R1 = (keys B, messages 0), R2 = (keys A, messages 1).
+ * A 32-bit word of the manager block / register dump / private stack that at quiescence DIFFERS between R0 and R1 and
+ * is EQUAL in R0 and R2 is a function of the key (and public IV / lengths) alone: key-derived material. Everything
+ * legitimately key dependent that survives a job (last ciphertext block kept as a lane IV, tag state, the garbage a
+ * flush computes in padded lanes) also depends on the message and is excluded by the R2 comparison. Reported when at
+ * least two such words (8 bytes) remain.                                                                       */
+static uint8_t KMEM[2][1 << 16] __attribute__((aligned(64)));
+static int g_msgseed;
+static void
+inputs_diff(int i)
+{
+        wb_t *b = &WB[i];
+        fill_rand(b->src, sizeof b->src, 100 + (uint64_t) i + (uint64_t) g_msgseed);
+        if (ALGS[U->a ? U->a : U->h].family == F_PON) {
+                b->src[0] = 0;
+                b->src[1] = 0;
+        }
+        fill_rand(b->iv, 32, 200 + (uint64_t) i);
+        fill_rand(b->aad, 64, 300 + (uint64_t) i);
+        for (int q = 17; q < 25; q++) {
+                b->iv[q] &= 0x3f;
+                b->aad[q] &= 0x3f;
+        }
+        memset(b->dst, 0, sizeof b->dst);
+        memset(b->tag, 0, sizeof b->tag);
+        memset(b->niv, 0, sizeof b->niv);
+}
+static int
+diff_sched(int n)
+{
+        int done = 0;
+        for (int i = 0; i < n; i++) {
+                inputs_diff(i);
+                IMB_JOB *j = (IMB_JOB *) pcall((void *) m->get_next_job, (uint64_t) m, 0, 0, 0, 0, 0);
+                item_t it;
+                mk(&it, i, (i + n) & 3);
+                alg_fill(m, j, &it);
+                IMB_JOB *r = (IMB_JOB *) pcall((void *) m->submit_job, (uint64_t) m, 0, 0, 0, 0, 0);
+                while (r) {
+                        done++;
+                        r = (IMB_JOB *) pcall((void *) m->get_completed_job, (uint64_t) m, 0, 0, 0, 0, 0);
+                }
+        }
+        while (pcall((void *) m->flush_job, (uint64_t) m, 0, 0, 0, 0, 0))
+                done++;
+        return done == n && pcall((void *) m->queue_size, (uint64_t) m, 0, 0, 0, 0, 0) == 0;
+}
+/* which out-of-order manager (pointer field of IMB_MGR pointing into the block) holds offset o */
+static void
+locate(size_t o, long *field_off, long *rel)
+{
+        const uint8_t *base = (const uint8_t *) m;
+        const uint8_t *best = base;
+        *field_off = -1;
+        for (size_t f = 0; f + 8 <= sizeof(IMB_MGR); f += 8) {
+                const uint8_t *p;
+                memcpy(&p, base + f, 8);
+                if (p > base + sizeof(IMB_MGR) - 1 && p < base + mgr_sz && p <= base + o && p > best) {
+                        best = p;
+                        *field_off = (long) f;
+                }
+        }
+        *rel = (long) (base + o - best);
+}
+/* diagnosis aid (tools/c13diag.sh): C13_DIAG="<unit>:<variant>:<n>:<where>" runs one differential cell, then re-runs R0 with
+ * diag_ready(address of the first key-derived word) / diag_done() bracketing it so a debugger watchpoint names the writer */
+__attribute__((noinline)) void
+diag_ready(volatile void *p)
+{
+        __asm__ volatile("" ::"r"(p) : "memory");
+}
+__attribute__((noinline)) void
+diag_done(void)
+{
+        __asm__ volatile("" ::: "memory");
+}
+static int g_diag_n, g_diag_w = -1;
+static void
+run_diff_variant(long item, void *arg)
+{
+        (void) arg;
+        U = &UNITS[item / NVARIANTS];
+        g_v = (int) (item % NVARIANTS);
+        if (!variant_usable(g_v))
+                return;
+        snprintf(g_name, sizeof g_name, "%s", U->name);
+        m = mgr_new(g_v);
+        mgr_sz = imb_get_mb_mgr_size();
+        if (keyset_size() > sizeof KMEM[0])
+                DIE("KMEM too small");
+        WB = calloc(NJ, sizeof *WB);
+        uint8_t *pristine = malloc(mgr_sz);
+        memcpy(pristine, m, mgr_sz);
+        const size_t SNAP = mgr_sz + sizeof dump + STK_SIZE;
+        uint8_t *S[3];
+        for (int r = 0; r < 3; r++)
+                S[r] = malloc(SNAP);
+        char sched[96];
+        for (int n = g_diag_n ? g_diag_n : 1; n <= (g_diag_n ? g_diag_n : 17); n++) {
+                int ok = 1;
+                for (int r = 0; r < 3; r++) {
+                        const int kid = r == 1 ? 22 : 20;
+                        KS[0] = keyset_new_at(m, kid, KMEM[0]);
+                        KS[1] = keyset_new_at(m, kid + 1, KMEM[1]);
+                        g_msgseed = r == 2 ? 7000 : 0;
+                        memcpy(m, pristine, mgr_sz);
+                        memset(stk, 0xA5, STK_SIZE);
+                        ok &= diff_sched(n);
+                        memcpy(S[r], m, mgr_sz);
+                        memcpy(S[r] + mgr_sz, dump, sizeof dump);
+                        memcpy(S[r] + mgr_sz + sizeof dump, stk, STK_SIZE);
+                        keyset_free(KS[0]);
+                        keyset_free(KS[1]);
+                }
+                n_scans++;
+                if (!ok)
+                        continue; /* completion itself is C05's business */
+                snprintf(sched, sizeof sched, "submit %d jobs (lengths cycling 4 values), flush all; three-run differential", n);
+                static const struct {
+                        const char *where;
+                } W[3] = { { "manager" }, { "registers" }, { "stack" } };
+                const size_t lo[4] = { 0, mgr_sz, mgr_sz + sizeof dump, SNAP };
+                for (int w = 0; w < 3; w++) {
+                        long cnt = 0, first = -1;
+                        for (size_t o = lo[w]; o + 4 <= lo[w + 1]; o += 4)
+                                if (memcmp(S[0] + o, S[1] + o, 4) && !memcmp(S[0] + o, S[2] + o, 4)) {
+                                        cnt += 4;
+                                        if (first < 0)
+                                                first = (long) (o - lo[w]);
+                                }
+                        if (cnt >= 8 && g_diag_w == w) {
+                                uint8_t *p = w == 0 ? (uint8_t *) m + first : w == 2 ? stk + first : dump + first;
+                                printf("DIAG %s first key-derived word at %s offset %ld (stack: %ld below top) addr %p bytes %ld: ", g_name, W[w].where, first,
+                                       (long) STK_SIZE - first, (void *) p, cnt);
+                                for (int q = 0; q < 32; q++)
+                                        printf("%02x", S[0][lo[w] + (size_t) first + (size_t) q]);
+                                printf("\n");
+                                fflush(stdout);
+                                KS[0] = keyset_new_at(m, 20, KMEM[0]);
+                                KS[1] = keyset_new_at(m, 21, KMEM[1]);
+                                g_msgseed = 0;
+                                memcpy(m, pristine, mgr_sz);
+                                memset(stk, 0xA5, STK_SIZE);
+                                diag_ready(p);
+                                diff_sched(n);
+                                diag_done();
+                                exit(0);
+                        }
+                        if (cnt >= 8) {
+                                char sig[220];
+                                snprintf(sig, sizeof sig, "C13|diff|%s|%s|%s", W[w].where, g_name, VARIANTS[g_v].name);
+                                n_hits++;
+                                if (!rec_sig_ok(sig, 2))
+                                        continue;
+                                rec_begin("viol");
+                                rec_s("site", "residue");
+                                rec_s("where", W[w].where);
+                                rec_s("secret", "key-derived-state");
+                                rec_s("alg", g_name);
+                                rec_s("variant", VARIANTS[g_v].name);
+                                rec_s("schedule", sched);
+                                rec_i("offset", first);
+                                rec_i("key_derived_bytes", cnt);
+                                if (w == 0) {
+                                        long f, rel;
+                                        locate((size_t) first, &f, &rel);
+                                        rec_i("ooo_pointer_field_offset_in_IMB_MGR", f);
+                                        rec_i("offset_in_ooo_manager", rel);
+                                }
+                                rec_end();
+                        }
+                }
+        }
+        stat_add("evaluations", n_scans);
+        stat_add("distinct_nontrivial", n_scans);
+        stat_add("differential_triples", n_scans);
+        stat_add("library_calls_on_private_stack", n_calls);
+        stat_add("residue_hits", n_hits);
+        n_scans = n_calls = n_hits = 0;
+        for (int r = 0; r < 3; r++)
+                free(S[r]);
+        free(pristine);
+        free(WB);
+        free_mb_mgr(m);
+}
 static void
 crashed(long item, int sig, void *arg)
 {
@@ -577,6 +766,7 @@ int
 main(void)
 {
         rec_init("C13", getenv("VERIF_TIER") ? getenv("VERIF_TIER") : "quick");
+        const char *diag = getenv("C13_DIAG");
         stk = mmap(0, STK_SIZE + 8192, PROT_READ | PROT_WRITE, MAP_PRIVATE | MAP_ANONYMOUS, -1, 0);
         stk += 4096;
         region_t R = region_new(1);
@@ -600,7 +790,20 @@ main(void)
                 u->dir = CH[c].dir;
                 snprintf(u->name, sizeof u->name, "%s+%s/%s", CH[c].c, CH[c].h, u->dir ? "enc" : "dec");
         }
+        if (diag) {
+                char un[96], vn[32], wn[32];
+                if (sscanf(diag, "%95[^:]:%31[^:]:%d:%31s", un, vn, &g_diag_n, wn) != 4)
+                        DIE("C13_DIAG=<unit>:<variant>:<n>:<manager|registers|stack>");
+                g_diag_w = !strcmp(wn, "manager") ? 0 : !strcmp(wn, "registers") ? 1 : 2;
+                for (int u = 0; u < NUNITS; u++)
+                        for (int v = 0; v < NVARIANTS; v++)
+                                if (!strcmp(UNITS[u].name, un) && !strcmp(VARIANTS[v].name, vn))
+                                        run_diff_variant((long) u * NVARIANTS + v, NULL);
+                printf("DIAG: nothing key-derived in that cell\n");
+                return 0;
+        }
         par_run((long) NUNITS * NVARIANTS, n_workers(), run_unit_variant, crashed, NULL, 600);
+        par_run((long) NUNITS * NVARIANTS, n_workers(), run_diff_variant, crashed, NULL, 600);
         par_run(NVARIANTS, n_workers(), run_helpers, crashed, (void *) 1, 600);
         par_run(NVARIANTS, n_workers(), run_direct, crashed, (void *) 2, 600);
         rec_begin("meta");
@@ -608,6 +811,10 @@ main(void)
                       "every call that leaves the queue empty: no 8-byte window of two consecutive secret words (key objects "
                       "and encrypt-side/hash messages are filled with (index, magic) words) in the register dump taken right "
                       "after ret, in the 256 KiB private stack, or in the manager block; plus every key-preparation helper");
+        rec_s("rule_derived", "same schedules run three times from one pristine manager image (keys A/messages 0, keys B/messages 0, keys "
+                              "A/messages 1; all objects at identical addresses): a 32-bit word of manager block, register dump or private "
+                              "stack that differs with the key and does not differ with the message is key-derived material; >= 8 such bytes "
+                              "at quiescence is a violation (LFSR/FSM rows, keystream, E_K(counter), hash-key powers)");
         rec_i("suites", NUNITS);
         rec_end();
         stats_emit();
